@@ -564,6 +564,27 @@ class SArray:
     def __radd__(self, o):
         return ew2("add", o, self)
 
+    def _inplace(self, op, o):
+        # numpy semantics for arrays that came from the numpy shim (lib.NumpyModel marks them): the OBJECT changes, so every
+        # alias (a cache entry, a default argument, another local) sees the new values.  jax arrays are immutable: rebinding.
+        if not getattr(self, "_mutable", False):
+            return ew2(op, self, o)
+        old = SArray(self.dims, self._elem, self.dtype, self.taint)
+        r = ew2(op, old, o)
+        if len(r.dims) != len(old.dims) or not all(ext_eq(extent(a), extent(b)) for a, b in zip(r.dims, old.dims)):
+            raise ValueError("non-broadcastable output operand in an in-place operation")
+        self.dims, self._elem = list(r.dims), r._elem
+        return self
+
+    def __iadd__(self, o):
+        return self._inplace("add", o)
+
+    def __isub__(self, o):
+        return self._inplace("sub", o)
+
+    def __imul__(self, o):
+        return self._inplace("mul", o)
+
     def __sub__(self, o):
         return ew2("sub", self, o)
 
